@@ -53,10 +53,12 @@ def gen_prog(rnd):
         # a '.once'-guarded file included from two places: it contributes (and is listed) once
         body = [apm.simple(".once"), apm.simple(".even"), apm.label("oncelab7"), apm.data(".word", apm.num(0o125252)), apm.assign("oncek7", apm.num(rnd.choice(vals)))]
         prog.aux["once7.mac"] = apm.SrcFile("once7.mac", body)
-        for _ in range(2):
+        for spell in ("once7.mac", rnd.choice(["once7.mac", "./once7.mac", "././once7.mac", ".//once7.mac"])):
             hf = rnd.choice(prog.files)
             hf.stmts.append(apm.simple(".even"))
-            hf.stmts.append(apm.include("once7.mac"))
+            inc = apm.include("once7.mac")
+            inc.spell = spell              # another spelling of the same path is the same file
+            hf.stmts.append(inc)
     try:
         ref = apm.Ref(prog).run()
     except (apm.RefError, apm.Unmodelled):
@@ -64,7 +66,7 @@ def gen_prog(rnd):
     return prog, ref
 
 
-SELECTORS = ["o-bin", "o-raw", "o-noext", "o-subdir", "make_bin", "make_raw", "make_wav", "implicit", "o+make", "make_bin-path", "o-dat", "make_raw-bin", "make_bin-img", "make2", "make2b", "make3"]
+SELECTORS = ["o-bin", "o-raw", "o-noext", "o-subdir", "make_bin", "make_raw", "make_wav", "implicit", "o+make", "make_bin-path", "o-dat", "make_raw-bin", "make_bin-img", "make2", "make2b", "make3", "implicit+make"]
 
 
 def parse_listing(text):
@@ -173,6 +175,9 @@ def run_case(case, cnt=None, root=None):
         elif sel == "make3":
             prog.files[-1].stmts.append(apm.simple("make_bin", '"aa.bin"')); prog.files[-1].stmts.append(apm.simple("make_raw", '"out/zz.raw"'))
             prog.files[-1].stmts.append(apm.simple("make_bin", '"mm.img"')); candidates = [["aa.lst"]]
+        elif sel == "implicit+make":
+            # a make_* directive is the output: --implicit-bin then adds nothing, and the listing goes with the directive's file
+            main.stmts.append(apm.simple("make_raw", '"image.raw"')); argv_sel = ["--implicit-bin"]; candidates = [["image.lst"]]
         elif sel == "implicit":
             argv_sel = ["--implicit-bin"]; candidates = [[stem + ".lst"]]
         else:
